@@ -59,6 +59,25 @@ def zl(xs) -> str:
     return '[' + '; '.join(z(x) for x in xs) + ']'
 
 
+def valid_cores(c) -> bool:
+    """batch/cloud/resource_utils.is_valid_cores_mcpu: a positive power of two of quarter cores."""
+    if not isinstance(c, int) or c <= 0 or (c * 4) % 1000 != 0:
+        return False
+    q = c * 4 // 1000
+    return q & (q - 1) == 0
+
+
+def resource_invalid(op: dict, world: dict) -> bool:
+    """A job bunch whose resource request the front end refuses before any database access that matters to the model: cpu not a
+    power-of-two number of quarter cores, or a pool label that is not configured.  Such a bunch has no model counterpart (the
+    model's job specs carry granted cores and an existing instance collection); the tie demands that the implementation rejects
+    it and leaves every table unchanged (compare, `must_reject`)."""
+    try:
+        return op.get('op') == 'create_jobs' and any((not valid_cores(x['cores'])) or x['inst_coll'] not in world['inst_colls'] for x in op['jobs'])
+    except (KeyError, TypeError):
+        return False
+
+
 def to_coq(op: dict, it: Interner, world: dict) -> Optional[str]:
     """Gallina term for one op; None for read-only ops outside the model's vocabulary."""
     k = op['op']
@@ -77,6 +96,8 @@ def to_coq(op: dict, it: Interner, world: dict) -> Optional[str]:
             gs.append(f"mkGspec {z(x['id'])} {oz(x.get('parent_abs'))} {z(x.get('parent_rel', 0) or 0)}")
         return f"CreateGroups {z(op['batch'])} {z(op['update'])} {g('user', op['user'])} [{'; '.join(gs)}]"
     if k == 'create_jobs':
+        if resource_invalid(op, world):
+            return None      # resource validity is C12's subject (select_inst_coll is faked here); see must_reject below
         js = []
         for x in op['jobs']:
             js.append(f"mkJspec {z(x['id'])} {oz(x.get('group_abs'))} {z(x.get('group_rel', 0) or 0)} {zl(x.get('parents_abs', []))} "
@@ -321,6 +342,13 @@ def compare(ctx, histories: List[List[dict]], world: Optional[dict] = None, name
     n_ops = 0
     suspects = []
     for hi, (h, ires, (mres, idx, it)) in enumerate(zip(histories, impl['results'], model_h)):
+        # ops without a model counterpart because of an invalid resource request: rejected, nothing changed
+        for i, op in enumerate(h):
+            if isinstance(op, dict) and resource_invalid(op, world or DEFAULT_WORLD):
+                before = ires[i - 1]['obs'] if i > 0 else None
+                if 'err' not in ires[i]['result'] or (before is not None and ires[i]['obs'] != before):
+                    dis.append(Disagreement(name, {'history': h[:i + 1]}, 'a job bunch with an invalid resource request must be rejected without any change',
+                                            {'op_index': i, 'op': op, 'result_impl': ires[i]['result']}))
         for mi, i in enumerate(idx):
             op = h[i]
             n_ops += 1
